@@ -178,6 +178,7 @@ TABLE = {
     "xor":               lambda c: bl(_xor(c["a"], c["b"])),
     "xor_prefix":        lambda c: bl(_xor(c["a"], c["b"])),
     "xor_twice":         lambda c: bl(_xor(_xor(c["a"], c["b"]), c["b"])),
+    "xor_twice_prefix":  lambda c: bl(_xor(_xor(c["a"], c["b"]), c["b"])),
     "to_hex":            lambda c: chars(impl()[1].BytesConverter.bytes_to_hex(bytes(c["x"]))),
     "from_hex":          lambda c: _convert_db({"db": [[[107], [c["h"]]]]})[0][1][0],
     "hex_rt":            lambda c: chars(impl()[1].BytesConverter.bytes_to_hex(bytes.fromhex("".join(c["h"])))),
@@ -301,6 +302,7 @@ def gen_small():
                 S += [{"op": "xor", "a": a, "b": b}, {"op": "xor_twice", "a": a, "b": b}]
             elif len(a) > len(b):
                 S.append({"op": "xor_prefix", "a": a, "b": b})
+                S.append({"op": "xor_twice_prefix", "a": a, "b": b})
     for n in range(0, 10):
         for k in range(1, 5):
             S.append({"op": "chunks", "x": list(range(n)), "n": k})
@@ -384,6 +386,7 @@ def gen_unit(u):
         S += [{"op": "xor", "a": a, "b": b}, {"op": "xor_twice", "a": a, "b": b}]
         if n:
             S.append({"op": "xor_prefix", "a": a, "b": b[:rnd.randrange(n)]})
+            S.append({"op": "xor_twice_prefix", "a": a, "b": b[:rnd.randrange(n)]})
     elif kind == "hex":
         x = rbytes(rnd.randint(0, 64), rnd)
         h = rhex(rnd.randint(0, 40), rnd)
